@@ -236,9 +236,16 @@ def check_rotation(case, ctx):
     if len(set(newd.tolist())) != len(newd):
         ctx.label("relabel-collision(skipped)")
         return
-    db = da.assign_coords(dir=newd)
     with ctx.lib("stats(S)"):
         A = _all_stats(da, case["depth"])
+    if case["amult"] % 2:
+        # relabel the very object the statistics were just taken from
+        keep = da.copy(deep=True)
+        da["dir"] = newd
+        db, da = da, keep
+        ctx.label("relabelled-in-place")
+    else:
+        db = da.assign_coords(dir=newd)
     with ctx.lib("stats(relabelled S)"):
         B = _all_stats(db, case["depth"])
     rt = 1e-9 if case["dtype"] == "float64" else 2e-5
